@@ -6,6 +6,7 @@ import (
 	"os"
 	"strconv"
 	"strings"
+	"sync"
 
 	"github.com/protomaps/go-pmtiles/pmtiles"
 	"verifharness/core"
@@ -86,11 +87,26 @@ func (C13) Gen(r *core.Rng, tier string, emit func(string)) {
 	}
 }
 
+var bigMetaOnce sync.Once
+var bigMeta []byte
+
+func bigClusterMeta() []byte {
+	bigMetaOnce.Do(func() {
+		bigMeta = []byte(`{"name":"big","description":"` + strings.Repeat("0123456789abcdef", 100000) + `","attribution":"© x"}`)
+	})
+	return bigMeta
+}
+
 func clusterOnce(cli bool, dedup bool, ic pmtiles.Compression, tt, tc int, data []byte, dirs []parsedDir) (readArchive, readArchive, error, error) {
 	h := clusterHeader(tt, tc)
 	// center zoom inside the zoom range of the tiles, zoom bytes truthful (cluster takes them from the entries anyway)
 	var flat []pmtiles.EntryV3
-	ab, hh := archiveFromParsed(ic, data, dirs, h, clusterMeta)
+	meta := clusterMeta
+	if (len(data)+len(dirs))%23 == 0 {
+		// now and then the metadata is large: 1.6 MB of JSON that compresses to a few KB
+		meta = bigClusterMeta()
+	}
+	ab, hh := archiveFromParsed(ic, data, dirs, h, meta)
 	before := readWholeArchive(ab)
 	flat = before.flat
 	if len(flat) > 0 {
@@ -111,6 +127,9 @@ func clusterOnce(cli bool, dedup bool, ic pmtiles.Compression, tt, tc int, data 
 	path := scratchFile(".pmtiles")
 	os.WriteFile(path, ab, 0o644)
 	defer os.Remove(path)
+	// left-overs of an interrupted edit or cluster next to the archive must not find their way into the result
+	staleOutput(path + ".tmp")
+	defer os.Remove(path + ".tmp")
 	if err := opCluster(cli, path, dedup); err != nil {
 		return before, readArchive{}, err, nil
 	}
